@@ -217,6 +217,7 @@ def run(ctx):
     derived_widths_capped(ctx, "R14-h")
     dump_omits_unconditionally(ctx, "R14-i")
     overrides_always_mark_the_option_set(ctx, "R14-j")
+    value_writers_agree_with_their_readers(ctx, "R14-k")
 
     E = r.rule("R14-e", "width clamp closure of set_width_heuristics: not set ↦ heuristic value; set ∧ value > max_width ↦ max_width; "
                         "otherwise the user's value")
@@ -463,3 +464,44 @@ def overrides_always_mark_the_option_set(ctx, rid):
                     % (len(bad), bad[0][1]), ["%s:%d" % (f.file, f.line)])
     r.floor(rid, n, 50, "option arms of Config::override_value")
     r.floor(rid, len(marks), 50, "was-set stores in Config::override_value")
+
+
+def value_writers_agree_with_their_readers(ctx, rid):
+    """R14-k: a configuration value is printed (Serialize) in the form its reader (Deserialize) accepts"""
+    import re
+    p, r = ctx.p, ctx.r
+    r.rule(rid, "`--print-config` prints the effective configuration through serde's Serialize, and a configuration file is read "
+                "through Deserialize. For every type of the config module that implements both, the two impls are of the same "
+                "kind: both derived from the shape of the type (inside serde's anonymous `const _`), or both written out (by "
+                "hand or by the config_type macro, through the Display / FromStr pair). A reader written by hand — it accepts "
+                "the *string* form, `\"*\"` — next to a derived writer — it prints the *shape*, `\"All\"` / `{ Name = \"a\" }` — "
+                "prints a value that does not re-parse, or re-parses as another value")
+    kinds = {}
+    for f in p.by_crate["rustfmt_nightly"]:
+        if f.kind == "Closure" or not f.impl:
+            continue
+        t = f.impl.get("trait") or ""
+        m = re.search(r"serde::(Serialize|Deserialize)\b", t)
+        ty = f.impl.get("self") or ""
+        if not m or "::config::" not in ty or "<impl" in ty:
+            continue
+        if not (f.id.endswith("::serialize") or f.id.endswith("::deserialize")):
+            continue
+        derived = re.search(r"::_::<impl [^>]*serde::(Serialize|Deserialize)", f.id) is not None
+        kinds.setdefault(ty, {})[m.group(1)] = ("derived" if derived else "written", f)
+    n = 0
+    for ty, d in sorted(kinds.items()):
+        if len(d) < 2:
+            continue
+        n += 1
+        (ks, fs), (kd, fd) = d["Serialize"], d["Deserialize"]
+        ok = ks == kd
+        r.instance(rid, "%s: Serialize %s, Deserialize %s" % (short(ty), ks, kd), "ok" if ok else "violation",
+                   "%s:%d" % (fs.file, fs.line))
+        if not ok:
+            r.violation(rid, "%s is written by a %s Serialize and read by a %s Deserialize" % (short(ty), ks, kd),
+                        "the value `--print-config` prints for an option of this type is the %s form, the file reader accepts "
+                        "the %s form: the printed configuration does not re-parse to the same configuration"
+                        % ("shape" if ks == "derived" else "string", "shape" if kd == "derived" else "string"),
+                        ["%s:%d" % (fs.file, fs.line), "%s:%d" % (fd.file, fd.line)])
+    r.floor(rid, n, 25, "config types with both a Serialize and a Deserialize impl")
